@@ -43,6 +43,13 @@ def case_st(draw, only=None):
     fn = only or draw(st.sampled_from(FUNCS))
     call = RECIPES[fn].gen(draw, OG)
     call["fn"] = fn
+    if fn == "ediff1d" and draw(st.sampled_from([0, 1, 1])):
+        # boundary values are always present in this half, and of a kind numpy casts into the array's
+        a = call["args"][0]["$p"]
+        for key in ("to_begin", "to_end"):
+            if key not in call["kw"] or draw(st.sampled_from([0, 1])):
+                k = "i" if (a["kind"] == "f" and draw(st.sampled_from([0, 1]))) else a["kind"]
+                call["kw"][key] = {"$p": OG.related(draw, a, (draw(st.sampled_from([1, 2])),), kind=k)}
     return call
 
 
